@@ -19,6 +19,7 @@ import (
 	"github.com/youchainhq/go-youchain/crypto/vrf"
 	secp256k1VRF "github.com/youchainhq/go-youchain/crypto/vrf/secp256k1"
 	"github.com/youchainhq/go-youchain/logging"
+	"github.com/youchainhq/go-youchain/params"
 	"verif/harness/drive"
 	"verif/harness/fixture"
 )
@@ -59,6 +60,8 @@ type Item struct {
 	St      int       `json:"st"`
 	Hid     int       `json:"hid"`
 	J       int64     `json:"j"`
+	Role    string    `json:"role"`
+	Pset    int       `json:"pset"`
 	JMax    int64     `json:"jmax"`
 	Targets []int64   `json:"targets"`
 }
@@ -203,6 +206,114 @@ func (wd *world) issue(env *drive.Env, bs Base, emit bool) (common.Hash, []byte,
 		wd.priority(env, val, int64(j))
 	}
 	return val, proof, int64(j)
+}
+
+// ---------------------------------------------------------------- issuer stage
+
+// lbParams is what the chain yields for one look-back class: ordinary votes / proposals read the seed SeedLookBack blocks back and the
+// stake StakeLookBack blocks back; certificate votes read both ACoCHTFrequency-class look-backs.  The two classes DIFFER in everything.
+type lbParams struct {
+	seed           common.Hash
+	stake, total   int64
+	voteTh, propTh uint64
+}
+
+func certClass(lb params.LookBackType) bool {
+	return params.TurnToSeedType(lb) == params.LookBackCertSeed
+}
+
+// issuer draws a credential through the REAL issuing side -- a SortitionManager built with NewSortitionManager over stub look-back
+// functions that answer per look-back type, the way Server.getLookBackSeed / getLookbackStakeInfo select (TurnToSeedType /
+// TurnToStakeType) -- and presents it to the real verifier functions with the seed / stake / threshold of the credential's OWN look-back
+// class (what Server.verifySortition / verifyPriority select for that step) and with the seed of the OTHER class.
+func (wd *world) issuer(env *drive.Env, role string, k, ix, pset int) {
+	tag := []byte(fmt.Sprintf("c04-issuer/%d/%d/%d", env.Seed, env.T, pset))
+	cls := map[bool]*lbParams{
+		false: {seed: crypto.Keccak256Hash(tag, []byte("pos")), stake: 40, total: 100, voteTh: 30, propTh: 10},
+		true:  {seed: crypto.Keccak256Hash(tag, []byte("cert")), stake: 55, total: 160, voteTh: 90, propTh: 10},
+	}
+	if pset == 2 {
+		cls[false] = &lbParams{seed: crypto.Keccak256Hash(tag, []byte("pos")), stake: 300, total: 1000, voteTh: 120, propTh: 26}
+		cls[true] = &lbParams{seed: crypto.Keccak256Hash(tag, []byte("cert")), stake: 250, total: 900, voteTh: 200, propTh: 26}
+	}
+	calls := []string{}
+	getStake := func(round *big.Int, addr common.Address, isProposer bool, lb params.LookBackType) (*big.Int, *big.Int, uint64, params.ValidatorKind, uint8, error) {
+		p := cls[certClass(lb)]
+		calls = append(calls, fmt.Sprintf("stake:%d", lb))
+		th := p.voteTh
+		if isProposer {
+			th = p.propTh
+		}
+		return big.NewInt(p.stake), big.NewInt(p.total), th, params.KindChamber, params.ValidatorOnline, nil
+	}
+	getSeed := func(round *big.Int, lb params.LookBackType) (common.Hash, error) {
+		calls = append(calls, fmt.Sprintf("seed:%d", lb))
+		return cls[certClass(lb)].seed, nil
+	}
+	sm := ucon.NewSortitionManager(wd.sks[k], getStake, getSeed, wd.keys[k].Addr)
+	round := big.NewInt(98304)
+	// the step value and the look-back type the voter / proposer passes for this role (voter.go vote(), proposal.go)
+	step := map[string]uint32{"proposal": 1, "prevote": 2, "precommit": 3, "nextindex": 4, "certificate": 5}[role]
+	lb := params.LookBackPos
+	if role == "certificate" {
+		lb = params.LookBackCert
+	}
+	own, other := cls[certClass(lb)], cls[!certClass(lb)]
+	ev := map[string]interface{}{"ev": "issuer", "role": role, "k": k, "ix": ix, "pset": pset}
+	var view *ucon.StepView
+	guard(ev, func() {
+		if role == "proposal" {
+			_, view = sm.VerifIsProposer(round, uint32(ix))
+		} else {
+			_, view = sm.VerifIsValidator(round, uint32(ix), step, lb)
+		}
+	})
+	ev["calls"] = calls
+	if view == nil || view.SortitionProof == nil {
+		ev["noview"] = true
+		env.Emit(ev)
+		return
+	}
+	j := int64(view.SubUsers)
+	ev["j"] = j
+	th := own.voteTh
+	if role == "proposal" {
+		th = own.propTh
+	}
+	try := func(name string, seed common.Hash) {
+		guard(ev, func() {
+			var ok bool
+			var err error
+			if role == "proposal" {
+				ok, err = ucon.VrfVerifyPriority(wd.pks[k], seed, uint32(ix), step, view.SortitionProof, view.Priority, view.SubUsers, th, wd.stakeObj(own.stake), wd.totalObj(own.total))
+			} else {
+				ok, err = ucon.VrfVerifySortition(wd.pks[k], seed, uint32(ix), step, view.SortitionProof, view.SubUsers, th, wd.stakeObj(own.stake), wd.totalObj(own.total))
+			}
+			ev[name] = ok && err == nil
+			if err != nil {
+				ev[name+"Err"] = err.Error()
+			}
+		})
+	}
+	try("own", own.seed)
+	try("other", other.seed)
+	env.Emit(ev)
+	// the issued seat count is the quantile for the OWN class's stake / threshold / total and the VRF output under the own seed
+	if h, err := wd.pks[k].ProofToHash(ucon.MakeM(own.seed, step, uint32(ix)), view.SortitionProof); err == nil {
+		env.Emit(map[string]interface{}{"ev": "choose", "src": "issuer", "tag": "issuer_" + role, "ej": -1, "q": q(common.Hash(h), own.stake, int64(th), own.total, j)})
+		if role == "proposal" {
+			wd.priorityCheck(env, common.Hash(h), j, view.Priority)
+		}
+	}
+}
+
+// priorityCheck records the priority an issuer put into its step view next to the per-seat reference hashes.
+func (wd *world) priorityCheck(env *drive.Env, val common.Hash, j int64, prio common.Hash) {
+	var seats []string
+	for i := int64(0); i <= j; i++ {
+		seats = append(seats, hx(seatHash(val, i)))
+	}
+	env.Emit(map[string]interface{}{"ev": "priority", "j": j, "seats": seats, "prio": hx(prio), "prio2": hx(prio)})
 }
 
 // seatHash is the PROTOCOL definition of the hash of seat i (Sortition.tla, PrioCases): keccak256(output || I2OSP(i)), I2OSP(i) the
@@ -742,6 +853,8 @@ func run(env *drive.Env) error {
 			wd.alias(env, it.AOps)
 		case "U":
 			wd.unique(env, it.K, it.Sd, it.Ix, it.St)
+		case "I":
+			wd.issuer(env, it.Role, it.K, it.Ix, it.Pset)
 		case "X":
 			wd.argmaxSearch(env, it.JMax, it.Targets)
 		case "XC":
